@@ -1025,6 +1025,16 @@ class DecoderLayout:
             raise AnalysisError("decoder of %s: statement %s not understood" % (self.cls.name, U(s)))
         if isinstance(s, ast.Assign) and len(s.targets) == 1:
             t, v = s.targets[0], s.value
+            # rest = pkt[K:] with no scan of the remaining-length field before it: the fixed header taken to be K bytes long - read as
+            # the body cursor it is meant to be; that the length field was not measured is what the header-skip rule reports
+            if isinstance(t, ast.Name) and not self.hdr["found"] and isinstance(v, ast.Subscript) and isinstance(v.value, ast.Name) \
+                    and v.value.id == self.pkt and isinstance(v.slice, ast.Slice) and v.slice.upper is None and v.slice.step is None \
+                    and v.slice.lower is not None and not self.cursors:
+                okk, kk = self.fold(v.slice.lower)
+                if okk and isinstance(kk, int) and kk >= 1:
+                    self.hdr["const_skip"] = kk
+                    self.cursors[t.id] = Lin(0)
+                    return
             # a, rest = decodeString(rest)
             if isinstance(t, ast.Tuple) and len(t.elts) == 2 and isinstance(v, ast.Call) and isinstance(v.func, ast.Name) \
                     and v.func.id == "decodeString" and len(v.args) == 1:
